@@ -48,7 +48,13 @@ class FileSystemArtifactStore(SerializedArtifactStore):
         return path
 
     def _get_glob(self, node_id: NodeId) -> t.List[Path]:
-        return list(Path(self._ensure_dir()).glob(f'{node_id}.*'))
+        # The node id is a literal key: it must not be treated as a glob pattern,
+        # and "x" must not match the artifact of "x.y"
+        directory = self._ensure_dir()
+        return [
+            path for path in (directory / f'{node_id}.{fmt.value}' for fmt in DataFormat)
+            if path.exists()
+        ]
 
     @dont_use_for_prod
     async def save(self, node_id: NodeId, data: NodeResultT, fmt: DataFormat = DataFormat.PICKLE) -> None:
